@@ -663,6 +663,10 @@ func validateBatchWriteItemInput(input *dynamodb.BatchWriteItemInput) error {
 		}
 	}
 
+	if count == 0 {
+		return awserr.New("ValidationException", "The batch write request list for a table cannot be null or empty", nil)
+	}
+
 	if count > batchRequestsLimit {
 		return awserr.New("ValidationException", "Too many items requested for the BatchWriteItem call", nil)
 	}
